@@ -152,7 +152,13 @@ def build_rule(rng, ri, p, D):
         cfg = {"mnemonics-full-match": rng.random() < 0.6, "operands-full-match": whole and rng.random() < 0.7}
     items = list(D.items())
     rng.shuffle(items)
-    ops.append({"$deref": dict(items)})
+    node = {"$deref": dict(items)}
+    r5 = rng.random()
+    if r5 < 0.08:
+        node["$deref"]["times"] = rng.choice([1, {"min": 1, "max": 1}])      # an explicit "exactly once", written inside the mapping
+    elif r5 < 0.16:
+        node["times"] = rng.choice([1, {"min": 1, "max": 1}, {"max": 1}])   # ... or beside it
+    ops.append(node)
     doc = {"config": cfg} if cfg else {}
     doc["pattern"] = [{ri.parsed.mnemonic: ops}]
     return real.dump_rule(doc)
@@ -267,7 +273,7 @@ def replay(ctx, case):
     import yaml
     doc = yaml.safe_load(case["rule"])
     ops = list(doc["pattern"][0].values())[0]
-    D = ops[-1]["$deref"]
+    D = {k: v for k, v in ops[-1]["$deref"].items() if k != "times"}
     lp = ws.write("one.s", case["listing"].encode())
     rp = ws.write("rule.yaml", case["rule"])
     r = real.match(rp, lp, ret="bool")
